@@ -40,7 +40,10 @@ def corr_targets(chk):
 
 
 def search(chk, r, n, max_pto):
-    for i in range(n):
+    # structured block: charged current in massive schemes, all four beams (the massive CC weights put
+    # each flavour on one sign only: quark-only and antiquark-only kernels)
+    structured = [(proj, scheme, nfff, fl) for proj in ("neutrino", "antineutrino", "electron", "positron") for (scheme, nfff, fl) in (("FFNS", 3, "charm"), ("FFN0", 3, "charm"), ("FFNS", 3, "bottom"))]
+    for i in range(n + len(structured)):
         process = r.choice(["EM", "NC", "CC"])
         kind = r.choice(cards.UNPOL if process == "CC" else cards.UNPOL + ["g1", "g4"])
         proj = r.choice(list(cards.PROJECTILES)) if process == "CC" else r.choice(["electron", "positron"])
@@ -48,6 +51,9 @@ def search(chk, r, n, max_pto):
         pto = r.choice(list(range(max_pto + 1)))
         pto_evol = r.choice([0, 1, 2])
         fl = r.choice(["total", "light", "charm"])
+        if i < len(structured):
+            process, kind, pto = "CC", r.choice(["F2", "F3"]), 0
+            proj, scheme, nfff, fl = structured[i]
         za = (float(r.uniform(0, 3)), float(r.uniform(3, 7)))
         target = r.choice(TARGETS[1:] + [dict(Z=za[0], A=za[1]), dict(A=za[1], Z=za[0]), dict(A=1.0, Z=0.0)])
         name = f"{kind}_{fl}"
@@ -88,6 +94,50 @@ def search(chk, r, n, max_pto):
         chk.search_case("target_vs_rotated_proton", worst <= 1e-11 * max(scale, 1e-300) or worst == 0.0, what=f"{scheme} {name} {process}: target operator != isospin rotation of the proton operator", data=sample, sample=sample, nontrivial=scale > 0 and distinct)
 
 
+def search_target_mass_paths(chk, r, n):
+    """the target enters only through the u/d rotation: also with target-mass corrections and for the
+    fixed-target cross sections (which use the target mass) the target run is the rotated proton run"""
+    for i in range(n):
+        mode = ["tmc", "xs"][i % 2]
+        target = r.choice(["neutron", "isoscalar", "lead", "iron", dict(Z=1.0, A=3.0)])
+        if mode == "tmc":
+            name, process, proj = r.choice([("F2_total", "NC", "electron"), ("F3_light", "CC", "neutrino"), ("FL_total", "EM", "electron")])
+            th = cards.theory(PTO=1 if name.startswith("FL") else 0, TMC=r.choice([1, 2, 3]))
+            p = [dict(x=0.3, Q2=4.0)]
+        else:
+            name, process, proj = r.choice([("XSCHORUSCC_total", "CC", "neutrino"), ("XSNUTEVCC_total", "CC", "antineutrino"), ("XSNUTEVNU_light", "CC", "neutrino"), ("FW_total", "CC", "neutrino")])
+            th = cards.theory(PTO=0)
+            p = [dict(x=0.3, Q2=4.0, y=0.6)]
+        kw = dict(prDIS=process, ProjectileDIS=proj, interpolation_xgrid=cards.default_grid(8, 0.02))
+        sample = dict(obs=name, process=process, projectile=proj, TMC=th["TMC"], target=target, point=p[0])
+        try:
+            ot = realrun.run(th, cards.obs({name: p}, TargetDIS=target, **kw))[name][0]
+            op = realrun.run(th, cards.obs({name: p}, TargetDIS="proton", **kw))[name][0]
+        except Exception as e:  # noqa
+            chk.search_case("target_vs_rotated_proton_with_target_mass", False, what=f"{name} {target}: {type(e).__name__}: {e}"[:200], data=sample)
+            continue
+        if isinstance(target, str):
+            from yadism.input import compatibility
+
+            tmp = dict(TargetDIS=target)
+            compatibility.update_target(tmp)
+            Z, A = tmp["TargetDIS"]["Z"], tmp["TargetDIS"]["A"]
+        else:
+            Z, A = target["Z"], target["A"]
+        worst = scale = 0.0
+        for k in op.orders:
+            vp, vt = np.array(op.orders[k][0]), np.array(ot.orders[k][0])
+            exp = vp.copy()
+            for s_ in (1, -1):
+                i1, i2 = realrun.BASIS.index(s_ * 1), realrun.BASIS.index(s_ * 2)
+                exp[i1] = (Z * vp[i1] + (A - Z) * vp[i2]) / A
+                exp[i2] = ((A - Z) * vp[i1] + Z * vp[i2]) / A
+            worst = max(worst, float(np.abs(vt - exp).max()))
+            scale = max(scale, float(np.abs(exp).max()))
+        sample.update(maxdiff=worst, scale=scale, Z=Z, A=A)
+        chk.search_case("target_vs_rotated_proton_with_target_mass", worst <= 1e-11 * max(scale, 1e-300), what=f"{name} {process} TMC={th['TMC']} target={target}: target operator != isospin rotation of the proton operator (diff {worst:.3g}, scale {scale:.3g})", data=sample, sample=sample if i == 0 else None, nontrivial=scale > 0)
+
+
 def run(tier):
     chk = common.Check("C12", tier)
     thorough = tier == "thorough"
@@ -96,5 +146,6 @@ def run(tier):
     corr_targets(chk)
     corr_weights.run_isospin(chk, 150 if thorough else 15, r)
     search(chk, r, 150 if thorough else 16, 2 if thorough else 1)
+    search_target_mass_paths(chk, r, 24 if thorough else 6)
     chk.assumptions += ["operator entries are linear in the parton weights (`conv` is a parameter)", "marble's TargetDISid string formatting is compared literally"]
     return chk
